@@ -161,8 +161,11 @@ impl Transformation<String> {
 
   pub fn used_vars(&self) -> &str {
     // NOTE: meta_var in transform always starts with `$`, for now
+    // the source is validated later (MalformedVar): never slice blindly here
     let s = self.source();
-    s.strip_prefix("$$$").unwrap_or_else(|| &s[1..])
+    s.strip_prefix("$$$")
+      .or_else(|| s.strip_prefix('$'))
+      .unwrap_or(s)
   }
 }
 impl Transformation<MetaVariable> {
